@@ -325,36 +325,79 @@ pub enum Op {
 		only: Vec<usize>,
 	},
 	/// run for a span of virtual time (whatever happens)
-	RunFor { virtual_s: u64 },
+	RunFor {
+		virtual_s: u64,
+	},
 	/// stop the daemon (drop its future = process crash) now; `Run` boots it again
 	Stop,
 	/// stop the daemon at the n-th event of the given kind counted from now, wherever it is
-	CrashAt { kind: String, nth: u64, max_virtual_s: u64 },
+	CrashAt {
+		kind: String,
+		nth: u64,
+		max_virtual_s: u64,
+	},
 	/// replace parts of the configuration (applied to Plan.config; TOML is re-emitted at next boot)
-	Edit { patch: Vec<EditItem> },
-	CaForget { ca: usize, account: String },
+	Edit {
+		patch: Vec<EditItem>,
+	},
+	CaForget {
+		ca: usize,
+		account: String,
+	},
 	/// truncate the account file of `account` to `at` bytes (while the daemon is stopped)
-	TruncateAccount { account: String, at: u64 },
+	TruncateAccount {
+		account: String,
+		at: u64,
+	},
 	/// for every offset 0, step, 2*step, .. < len of the account file: truncate a copy to that offset,
 	/// boot the daemon, stop it, restore the file (crash_points: every truncation point)
-	TruncateSweep { account: String, step: u64 },
+	TruncateSweep {
+		account: String,
+		step: u64,
+	},
 	/// remove a certificate's file: which = "pk" | "crt"
-	RemoveFile { cert: usize, which: String },
+	RemoveFile {
+		cert: usize,
+		which: String,
+	},
 	/// step the wall clock (only legal between attempts, while stopped or sleeping)
-	Skew { seconds: i64 },
+	Skew {
+		seconds: i64,
+	},
 	/// CA behaviour switch from now on
-	Knob { ca: usize, patch: serde_json::Value },
+	Knob {
+		ca: usize,
+		patch: serde_json::Value,
+	},
 }
 
 #[derive(Serialize, Deserialize, Clone, Debug)]
 #[serde(tag = "k", rename_all = "snake_case")]
 pub enum EditItem {
-	Contacts { account: String, contacts: Vec<String> },
-	KeyType { account: String, key_type: String },
-	Eab { account: String, eab: Option<EabCfg> },
-	CertIdentifiers { cert: usize, identifiers: Vec<IdentCfg> },
-	CertKeyType { cert: usize, key_type: String },
-	GlobalModes { cert_file_mode: Option<u32>, pk_file_mode: Option<u32> },
+	Contacts {
+		account: String,
+		contacts: Vec<String>,
+	},
+	KeyType {
+		account: String,
+		key_type: String,
+	},
+	Eab {
+		account: String,
+		eab: Option<EabCfg>,
+	},
+	CertIdentifiers {
+		cert: usize,
+		identifiers: Vec<IdentCfg>,
+	},
+	CertKeyType {
+		cert: usize,
+		key_type: String,
+	},
+	GlobalModes {
+		cert_file_mode: Option<u32>,
+		pk_file_mode: Option<u32>,
+	},
 }
 
 #[derive(Serialize, Deserialize, Clone, Debug, Default)]
@@ -395,9 +438,19 @@ pub struct Fault {
 #[serde(tag = "k", rename_all = "snake_case")]
 pub enum FaultKind {
 	/// problem document; type "" = member absent; detail optional
-	Acme { typ: String, status: u16, #[serde(default)] detail: Option<String> },
+	Acme {
+		typ: String,
+		status: u16,
+		#[serde(default)]
+		detail: Option<String>,
+	},
 	/// arbitrary HTTP answer (non-JSON error body, empty body, 2xx with a problem document...)
-	Http { status: u16, body: String, #[serde(default)] content_type: String },
+	Http {
+		status: u16,
+		body: String,
+		#[serde(default)]
+		content_type: String,
+	},
 	/// connection refused / reset before the request reaches the CA
 	Refuse,
 	/// request processed by the CA, reply lost
@@ -411,13 +464,20 @@ pub enum FaultKind {
 	/// success reply with a JSON member removed
 	DropField { name: String },
 	/// success reply with a JSON member replaced
-	SetField { name: String, value: serde_json::Value },
+	SetField {
+		name: String,
+		value: serde_json::Value,
+	},
 	/// certificate body replaced: "garbage" | "empty" | "other_key" | "truncated" | "not_utf8"
 	CertBody { what: String },
 	/// reply body that is not JSON (on a 2xx)
 	NotJson,
 	/// fs: errno name "EIO" | "ENOSPC" | "EACCES"; `after` = bytes written before failing
-	Errno { errno: String, #[serde(default)] after: u64 },
+	Errno {
+		errno: String,
+		#[serde(default)]
+		after: u64,
+	},
 	/// proc: exit code / signal / spawn failure
 	Exit { code: i32 },
 	#[serde(other)]
